@@ -3,7 +3,10 @@ package main
 // Fixed converters that run first in their stream (a corpus of shapes the random generator reaches only now and
 // then): the combinations the default FUNC clauses of C11 quantify over.
 
-import "fmt"
+import (
+	"fmt"
+	"strings"
+)
 
 func (g *pgen) corpus(focus string, start int) []*ConvSpec {
 	if focus == "c07" {
@@ -14,7 +17,9 @@ func (g *pgen) corpus(focus string, start int) []*ConvSpec {
 		return append(g.corpusSettings(start), g.corpusC04(start+3)...)
 	}
 	if focus == "c05" {
-		return g.corpusSettings(start)
+		out := g.corpusSettings(start)
+		out = append(out, g.corpusC05(start+len(out))...)
+		return append(out, g.corpusC03(start+len(out))...) // ignoreMissing does not excuse an ambiguous match (C05-b), ...
 	}
 	if focus == "c03" {
 		return g.corpusC03(start)
@@ -378,6 +383,41 @@ func (g *pgen) corpusC02(start int) []*ConvSpec {
 			t := g.newNamed(1, &Ty{K: "struct", Pkg: 1, Fields: []Field{{"D", tPtr(tSlice(el))}, {"E", tSlice(tSlice(el))}, {"F", tMap(str, tPtr(tSlice(el)))}}}, "T")
 			add(tNamed(na), tSlice(el))
 			add(tNamed(s), tNamed(t))
+		}
+	}
+	return out
+}
+
+// corpusC05: autoMap candidates include the argument-less methods of the auto-mapped struct (held by value or behind a
+// pointer): the only same-named source of a target field, next to ignoreMissing (must not drop it) and next to a
+// re-cased direct field with matchIgnoreCase (the exact-name method wins).
+func (g *pgen) corpusC05(start int) []*ConvSpec {
+	var out []*ConvSpec
+	str, i := tBasic(bkString), tBasic(bkInt)
+	for _, byPtr := range []bool{false, true} {
+		for variant := 0; variant < 3; variant++ {
+			addr := g.newNamed(1, &Ty{K: "struct", Pkg: 1, Fields: []Field{{"Street", str}}}, "S")
+			f := &FuncDecl{Idx: len(g.p.Funcs), Pkg: 1, Tgt: str, Recv: tNamed(addr)}
+			f.Name = fmt.Sprintf("Line%d", f.Idx)
+			g.p.Funcs = append(g.p.Funcs, f)
+			inner := tNamed(addr)
+			if byPtr {
+				inner = tPtr(inner)
+			}
+			sf := []Field{{"Inner", inner}, {"X", i}}
+			var lines []string
+			switch variant {
+			case 1:
+				lines = []string{"ignoreMissing"}
+			case 2:
+				sf = append(sf, Field{strings.ToUpper(f.Name), str})
+				lines = []string{"matchIgnoreCase"}
+			}
+			s := g.newNamed(1, &Ty{K: "struct", Pkg: 1, Fields: sf}, "S")
+			t := g.newNamed(1, &Ty{K: "struct", Pkg: 1, Fields: []Field{{f.Name, str}, {"Street", str}, {"X", i}}}, "T")
+			c := &ConvSpec{Name: fmt.Sprintf("C%d", start+len(out)), Custom: true, FuncNames: map[string]int{}}
+			c.Methods = []*MethodSpec{{Name: "M0", Src: tNamed(s), Tgt: tNamed(t), Lines: append([]string{"autoMap Inner"}, lines...), Auto: []string{"Inner"}, Fields: map[string]*fieldSet{}}}
+			out = append(out, c)
 		}
 	}
 	return out
